@@ -1,4 +1,5 @@
 mod aisle;
+mod prec;
 mod sym;
 mod util;
 
@@ -9,6 +10,7 @@ fn main() {
     let cmd = args.first().map(|s| s.as_str()).unwrap_or("");
     match cmd {
         "aisle" => aisle::main(&args[1..]),
+        "spans" => prec::main_spans(&args[1..]),
         "selfcheck" => println!("ok"),
         _ => {
             eprintln!("unknown command {cmd:?}");
